@@ -136,6 +136,10 @@ func postC08(res *RunResult) {
 				continue
 			}
 			for j := range calls {
+				if strings.HasSuffix(outs[j], " CHANGED-AFTER-RETURN") {
+					addViolation(res, c, outs[j], fmt.Sprintf("the File returned by call %d of this history was changed by a later call", j))
+					outs[j] = strings.TrimSuffix(outs[j], " CHANGED-AFTER-RETURN")
+				}
 				a, ok := alone[calls[j]]
 				if !ok || a == outs[j] {
 					continue
